@@ -31,6 +31,7 @@ import coalescent2coq  # noqa: E402
 import serial2coq  # noqa: E402
 import utils2coq  # noqa: E402
 import spectrum2coq  # noqa: E402
+import norms2coq  # noqa: E402
 
 # one entry per translated source file: translator module, source, committed generated file, equivalence proofs
 TIES = {
@@ -45,6 +46,7 @@ TIES = {
     'marginals': dict(mod=marginals2coq, src='distributions.py', gen='MarginalsGen', equiv='GenMarginalsEquiv'),
     'statespace': dict(mod=statespace2coq, src='state_space.py', gen='StateSpaceGen', equiv='GenStateSpaceEquiv'),
     'coalescent': dict(mod=coalescent2coq, src='distributions.py', gen='CoalescentGen', equiv='GenCoalescentEquiv'),
+    'norms': dict(mod=norms2coq, src='norms.py', gen='NormsGen', equiv='GenNormsEquiv'),
     'spectrum': dict(mod=spectrum2coq, src='spectrum.py', gen='SpectrumGen', equiv='GenSpectrumEquiv'),
     'utils': dict(mod=utils2coq, src='utils.py', gen='UtilsGen', equiv='GenUtilsEquiv'),
     'serial': dict(mod=serial2coq, src='', gen='SerialGen', equiv='GenSerialEquiv', src_is_dir=True),
